@@ -12,4 +12,6 @@ const stateHook = true
 
 func stateDump(w io.Writer, t *iavl.MutableTree) { iavl.VerifStateDump(w, t) }
 
+func immutableDump(w io.Writer, t *iavl.ImmutableTree) { iavl.VerifImmutableDump(w, t) }
+
 func storageVersionLabel(t *iavl.MutableTree) string { return iavl.VerifStorageVersion(t) }
